@@ -286,7 +286,8 @@ def run(ctx):
     channel_rule(ctx, repo)
     wrap_rule(ctx, repo)
     C18pipe.run(ctx, repo)
+    C18pipe.blocks_rule(ctx, repo)
     return report.finish(ctx, 'Decides structural necessary conditions: every annotation attribute of the parsed skool file is read by AsmWriter and HtmlWriter and the keys HtmlWriter fills from them are emitted by both entry templates; '
                          'the one TextWrapper never breaks words, is the only wrapper in the writers and every width handed to it derives from the configured line width. '
                          'Word-for-word preservation and line lengths are attempted only by C18.3, a *fold* (concrete evaluation of sna2skool and skool2asm by the checker\'s interpreter on generated annotated inputs, sampled). '
-                         'Not decided: the HTML page text, #TABLE / #LIST blocks, tab / CRLF / indentation settings, all inputs and widths.')
+                         'C18.4 (also a *fold*) does the same for #TABLE / #LIST blocks in descriptions: sna2skool keeps their words (plain, <nowrap>, <wrapalign>), skool2asm renders a rectangular table whose columns hold the words of the cells and which fits the width when a column is wrappable. Not decided: the HTML page text, row spans and transparent cells, tab / CRLF / indentation settings, all inputs and widths.')
